@@ -22,6 +22,47 @@ type rawPara struct {
 	control.Paragraph
 }
 
+// namedPara is an element type with named fields next to the raw paragraph:
+// what decoding puts into the named fields must be what this paragraph says.
+type namedPara struct {
+	control.Paragraph
+	Package    string
+	Source     string
+	Section    string
+	Homepage   string
+	Maintainer string
+	XFoo       []string `control:"X-Foo" delim:"," strip:" \t\r\n"`
+}
+
+// namedDiff compares the named fields of one decoded element with its own paragraph.
+func namedDiff(e *namedPara) string {
+	for _, f := range []struct{ name, got string }{{"Package", e.Package}, {"Source", e.Source}, {"Section", e.Section}, {"Homepage", e.Homepage}, {"Maintainer", e.Maintainer}} {
+		want, present := e.Paragraph.Values[f.name]
+		if !present && f.got != "" {
+			return fmt.Sprintf("field %s is %q but the paragraph has no such field", f.name, clip(f.got, 80))
+		}
+		if present && strings.TrimSpace(f.got) != strings.TrimSpace(want) {
+			return fmt.Sprintf("field %s is %q, the paragraph says %q", f.name, clip(f.got, 80), clip(want, 80))
+		}
+	}
+	want, present := e.Paragraph.Values["X-Foo"]
+	if !present && len(e.XFoo) != 0 {
+		return fmt.Sprintf("list field X-Foo has %d items but the paragraph has no such field", len(e.XFoo))
+	}
+	squeeze := func(s string) string {
+		return strings.Map(func(c rune) rune {
+			if c == ',' || c == ' ' || c == '\t' || c == '\r' || c == '\n' {
+				return -1
+			}
+			return c
+		}, s)
+	}
+	if present && squeeze(strings.Join(e.XFoo, "")) != squeeze(want) {
+		return fmt.Sprintf("list field X-Foo is %q, the paragraph says %q", e.XFoo, clip(want, 80))
+	}
+	return ""
+}
+
 type consumerResult struct {
 	paras []control.Paragraph
 	err   error
@@ -206,6 +247,39 @@ func runC07(r *rt.Run, tier string) {
 			}
 		}
 		_ = again
+	}
+	if mode == 0 && t.Bool(1, 4, "c07.slice-reuse") {
+		// the caller decodes one document into a slice, empties the slice
+		// (s = s[:0], keeping its storage) and decodes another document into it:
+		// every element then says what ITS paragraph of the second document says
+		other, doc2, _ := genDoc(t, docGenOpts{MinParas: 1, MaxParas: 4, MaxFields: 4}, r)
+		var out []namedPara
+		var err1, err2 error
+		task := r.Solo("slice-reuse", func() {
+			err1 = control.Unmarshal(&out, simio.NewPlainReader(r, "first", doc))
+			out = out[:0]
+			err2 = control.Unmarshal(&out, simio.NewPlainReader(r, "second", doc2))
+		})
+		if taskTrouble(r, "C07", "slice-reuse", task) {
+			return
+		}
+		r.Probe("slice-emptied-and-decoded-into-again")
+		if err1 != nil || err2 != nil {
+			r.Violate("C07/error-on-wellformed", "Unmarshal/slice-reuse", "well-formed documents rejected: %v / %v", err1, err2)
+		} else if len(out) != len(other) {
+			r.Violate("C07/paragraph-count", "Unmarshal/slice-reuse", "second document has %d paragraphs, the re-used slice holds %d", len(other), len(out))
+		} else {
+			for i := range out {
+				if d := paraDiff(&out[i].Paragraph, &other[i]); d != "" {
+					r.Violate("C07/paragraph-mismatch", "Unmarshal/slice-reuse", "paragraph %d: %s", i, d)
+					break
+				}
+				if d := namedDiff(&out[i]); d != "" {
+					r.Violate("C07/paragraph-mismatch", "Unmarshal/slice-reuse/named-fields", "element %d of the re-used slice: %s", i, d)
+					break
+				}
+			}
+		}
 	}
 	switch mode {
 	case 0:
@@ -396,5 +470,5 @@ func init() {
 		},
 		Assumptions: []string{"generator model and reference reader written from Debian Policy 5.1 / deb822(5), independent of the library; the reference reader is checked against the generator model on every run"},
 	})
-	propProbes["C07"] = []string{"transient-read-fault", "two-readers-alive", "crlf", "comment-between-continuations", "comment-before-first", "comment-last", "no-final-newline", "long-line", "empty-first-line", "dot-line", "truncate-wellformed-prefix", "arbitrary-raw", "arbitrary-mutated"}
+	propProbes["C07"] = []string{"slice-emptied-and-decoded-into-again", "transient-read-fault", "two-readers-alive", "crlf", "comment-between-continuations", "comment-before-first", "comment-last", "no-final-newline", "long-line", "empty-first-line", "dot-line", "truncate-wellformed-prefix", "arbitrary-raw", "arbitrary-mutated"}
 }
